@@ -687,17 +687,24 @@ class C15(Check):
         saved = (irsim.SimKernel.runtime, seams.kernel_factory, _alias["enabled"])
         irsim.SimKernel.runtime, seams.kernel_factory, _alias["enabled"] = None, None, False
         try:
+            # argument shapes are learnt on the IR build of the same wrapper: the simulated kernels check ranks,
+            # the compiled ones do not (a wrong-rank trial argument would be read out of bounds)
+            try:
+                seams.kernel_factory = lambda k: irsim.SimKernel(k)
+                w_s = build_generator(p["gen"], dim, dict(p["opts"], fixed=False), big)
+                inner_s = w_s.wrapper if isinstance(w_s, AliasProbe) else w_s
+                thunk_args = self._probe_args(inner_s, dim, big, real_t, p["sub"])
+            except Exception:  # noqa: BLE001  (wrappers tied to generation-time buffers of another shape, etc.)
+                return
+            finally:
+                seams.kernel_factory = None
+            if thunk_args is None:
+                return
             try:
                 w_c = build_generator(p["gen"], dim, dict(p["opts"], fixed=False), big)
             except Exception:  # noqa: BLE001
                 return
             inner = w_c.wrapper if isinstance(w_c, AliasProbe) else w_c
-            try:
-                thunk_args = self._probe_args(inner, dim, big, real_t, p["sub"])
-            except Exception:  # noqa: BLE001  (wrappers tied to generation-time buffers of another shape, etc.)
-                return
-            if thunk_args is None:
-                return
             kw0 = thunk_args
             eps = float(np.finfo(real_t).eps)
             lo = [int(n // 2) - blk // 2 - halo for n in big]
@@ -761,8 +768,8 @@ class C15(Check):
     def _probe_args(wrapper, dim, shape, real_t, sub):
         """Keyword arguments for one call of a wrapper / bare kernel on arrays of `shape`."""
         g = prng.np_rng(sub, "blocking")
-        if hasattr(wrapper, "parameters") and hasattr(wrapper, "kernel"):
-            # compiled bare kernel: fields by name
+        if isinstance(wrapper, irsim.SimKernel) or (hasattr(wrapper, "parameters") and hasattr(wrapper, "kernel")):
+            # bare kernel: fields by name, ranks from the kernel's own parameter list
             kw = {}
             for prm in wrapper.kernel.parameters:
                 if prm.is_field_pointer:
